@@ -240,7 +240,15 @@ class EBNF_to_BNF(Transformer_InPlace):
     def _cache_key(self, key):
         # Helper rules inherit the options of the rule they were created for, so they
         # can only be shared between rules that agree on keep_all_tokens
-        return key, bool(self.rule_options and self.rule_options.keep_all_tokens)
+        # Terminals compare by name, but an anonymous one may share its name with a named one that isn't filtered out
+        return key, bool(self.rule_options and self.rule_options.keep_all_tokens), tuple(self._filtered_out(key))
+
+    def _filtered_out(self, key):
+        if isinstance(key, Terminal):
+            yield key.filter_out
+        elif isinstance(key, (Tree, tuple)):
+            for child in (key.children if isinstance(key, Tree) else key):
+                yield from self._filtered_out(child)
 
     def _add_rule(self, key, name, expansions):
         t = NonTerminal(name)
